@@ -261,17 +261,17 @@ def _deco_node(path, l):
 DECOS = {"property": {"property"}, "staticmethod": {"staticmethod"}, "classmethod": {"classmethod"}, "functools.cache": {"cached"},
          "functools.cached_property": {"cached", "property"}, "abc.abstractmethod": {"abstractmethod"}}
 
-KINDS = ["def", "adef", "def_doc", "class", "class_doc", "class_def", "class_assign", "class_init", "class_init_if", "class_init_again", "assign", "annassign", "ann_only", "assign_doc", "import", "importfrom",
+KINDS = ["def", "adef", "adef_deco", "def_doc", "class", "class_doc", "class_def", "class_assign", "class_init", "class_init_nested", "class_init_if", "class_init_again", "assign", "annassign", "ann_only", "assign_doc", "import", "importfrom",
          "tc_assign", "tc_import", "if_assign", "else_assign", "try_assign", "for_assign", "with_assign", "all", "all_plus"] + ["deco:" + d for d in DECOS]
 KINDS_Q = ["def", "def_doc", "class_def", "class_init", "class_init_if", "assign", "annassign", "assign_doc", "import", "importfrom", "tc_assign", "if_assign", "try_assign", "for_assign", "all",
-           "deco:property", "deco:functools.cache", "adef", "class_doc"]
+           "deco:property", "deco:functools.cache", "adef", "adef_deco", "class_init_nested", "class_doc"]
 
 
 def height(kind, x):
     """Number of source lines the slot occupies (x = symbolic stretch >= 0)."""
     if kind in ("def", "adef", "class", "tc_assign", "tc_import", "if_assign", "for_assign", "with_assign", "assign_doc", "class_assign"):
         return 2 + x
-    if kind in ("def_doc", "class_doc", "class_def", "class_init") or kind.startswith("deco:"):
+    if kind in ("def_doc", "class_doc", "class_def", "class_init", "class_init_nested", "adef_deco") or kind.startswith("deco:"):
         return 3 + x
     if kind == "class_init_if":
         return 5 + x
@@ -304,6 +304,16 @@ def build_slot(kind, n, inner, l, x, doc):
             ev.append(dict(name=n, kind="attribute", lineno_in=(l, l + 1 + x), endlineno=e, labels=set(DECOS[path]), doc=None))
         else:
             ev.append(dict(name=n, kind="function", lineno=l, endlineno=e, labels=set(DECOS[path]), doc=None, decorators=[(path, l)]))
+    elif kind == "adef_deco":
+        # a DECORATED coroutine function: its decorator-derived labels must not reach any other function
+        st = [_funcdef(ast.AsyncFunctionDef, n, l + 1 + x, e, [_pass(e)], decos=[_deco_node("functools.cache", l)])]
+        ev.append(dict(name=n, kind="function", lineno=l, endlineno=e, labels={"async", "cached"}, doc=None, decorators=[("functools.cache", l)]))
+    elif kind == "class_init_nested":
+        # class n:  def __init__(self):  self.o.<inner> = 0   -> binds nothing at class level (the target is an attribute of self.o)
+        tgt = _at(ast.Attribute(value=_at(ast.Attribute(value=_name("self", e), attr="o", ctx=ast.Load()), e), attr=inner, ctx=ast.Store()), e)
+        init = _funcdef(ast.FunctionDef, "__init__", l + 1, e, [_at(ast.Assign(targets=[tgt], value=_const(0, e), type_comment=None), e)], with_self=True)
+        st = [_classdef(n, l, e, [init])]
+        ev.append(dict(name=n, kind="class", lineno=l, endlineno=e, labels=set(), doc=None, members={"__init__": dict(kind="function", lineno=l + 1, endlineno=e)}))
     elif kind == "class":
         st = [_classdef(n, l, e, [_pass(e)])]
         ev.append(dict(name=n, kind="class", lineno=l, endlineno=e, labels=set(), doc=None, members={}))
@@ -623,6 +633,10 @@ def render_source(kinds, names, inner, l1, xs, gaps, doc):
             put(l, f"class {n}:"); put(e, f"    {inner} = 0")
         elif k == "class_init":
             put(l, f"class {n}:"); put(l + 1, "    def __init__(self):"); put(e, f"        self.{inner} = 0")
+        elif k == "class_init_nested":
+            put(l, f"class {n}:"); put(l + 1, "    def __init__(self):"); put(e, f"        self.o.{inner} = 0")
+        elif k == "adef_deco":
+            put(l, "@functools.cache"); put(l + 1 + x, f"async def {n}():"); put(e, "    pass")
         elif k == "class_init_if":
             put(l, f"class {n}:"); put(l + 1, f"    {inner} = 0"); put(l + 2, "    def __init__(self):"); put(l + 3, "        if cond:"); put(e, f"            self.{inner} = 1")
         elif k == "class_init_again":
